@@ -187,6 +187,7 @@ def generate(rng, index, tier):
     return {
         'slow_close': rng.choice([0.05, 0.5, 2.0]) if rng.random() < 0.25 else 0,
         'slow_removed': rng.choice([0.05, 0.5, 2.0]) if rng.random() < 0.2 else 0,
+        'slow_sent': rng.choice([0.05, 0.5, 1.5]) if rng.random() < 0.15 else 0,
         'shape': 'search', 'seed': rng.getrandbits(32), 'net': net, 'precise': precise,
         'settings': {'request_timeout': request_timeout, 'wishlist_timeout': wishlist_timeout,
                      'store': rng.random() < 0.8},
@@ -349,6 +350,13 @@ def _directed():
             {'id': 1, 'op': 'search', 'kind': kind, 'when': ['t0', 0.5]},
             {'id': 2, 'op': 'remove', 'target': ['req', 1], 'when': ['deadline', ['req', 1], 0.2], 'hops': 0, 'by': 'object'},
             _reply(3, ['req', 1], ['deadline', ['req', 1], 0.3])]))
+    # an application listener that is slow when a request is reported sent: the user removes the request meanwhile
+    for kind in ('net', 'room', 'user'):
+        for by in ('object', 'ticket'):
+            out.append(dict(base, settings=S2, slow_sent=0.5, ops=[
+                {'id': 1, 'op': 'search', 'kind': kind, 'when': ['t0', 0.5]},
+                {'id': 2, 'op': 'remove', 'target': ['req', 1], 'when': ['sent', ['req', 1], 0.1], 'hops': 0, 'by': by},
+                _reply(3, ['req', 1], ['sent', ['req', 1], 1.0])]))
     # unknown tickets while another request is live; a reply for a ticket that is only issued later
     out.append(dict(base, settings=S2, ops=[
         {'id': 1, 'op': 'search', 'kind': 'net', 'when': ['t0', 0.5]},
@@ -601,12 +609,25 @@ def _run_search(world: World, plan):
                 return rec['idx']
         return None
 
+    # with a slow listener on the sent event the requests of one wishlist round go out over a stretch of time while the
+    # library reads the timeout setting once per round: every value in force since the round can have begun is admissible
+    round_span = float(plan.get('slow_sent') or 0) * max(len(plan.get('wishlist', [])), 1)
+
+    def in_effect(history, now):
+        if not round_span:
+            return _in_effect(history, now)
+        out = list(_in_effect(history, now - round_span))
+        for (when, v) in history:
+            if now - round_span - EPS <= when <= now + EPS and v not in out:
+                out.append(v)
+        return out
+
     def timeouts_for(typ, now):
         if typ == 'WISHLIST':
             out = []
-            for w in _in_effect(wishlist_hist, now):
+            for w in in_effect(wishlist_hist, now):
                 if w < 0:
-                    vals = _in_effect(interval_hist, now) or [None]
+                    vals = in_effect(interval_hist, now) or [None]
                 else:
                     vals = [w]
                 for v in vals:
@@ -673,6 +694,14 @@ def _run_search(world: World, plan):
                 await asyncio.sleep(plan['slow_close'])
         world.keep_alive.append(slow_close)
         client.events.register(ConnectionStateChangedEvent, slow_close)
+
+    if plan.get('slow_sent'):
+        # an application listener that takes its time when a request is reported sent
+        async def slow_sent(event):
+            world.net.fired['slow_sent_listener'] += 1
+            await asyncio.sleep(plan['slow_sent'])
+        world.keep_alive.append(slow_sent)
+        client.events.register(SearchRequestSentEvent, slow_sent, priority=2000)
 
     if plan.get('slow_removed'):
         # an application listener that takes its time when a request is reported removed
